@@ -18,6 +18,8 @@ replay: every configuration is rendered as an equation block and run on the real
           * with seeded random float values in place of the small integers ("float dress"),
           * through the model API (Model / Country / Sector, AddVariable, SetExogenous /
             AddExogenous, AddInitialCondition, MaxTime, main(), GetTimeSeries).
+        Variable names are a dimension of the blueprints (h1 next to h10, W0, x100, a0b): the text
+        "NAME(0) = v" and Model.AddInitialCondition must reach exactly the variable NAME.
         The projection compares what came back with what was SUPPLIED by exact float equality and
         logs Booleans, lengths and (when integral) the series as small integers.
 trace:  TLC (Horizon_Trace) decides per trace which clauses must hold and gives one total verdict.
@@ -558,6 +560,9 @@ def signature(clause, case, events, rnd):
     if clause == 'C10_ExoVerbatim':
         return head + 'exo:' + cfg['exo']['form']
     if clause == 'C10_ICVerbatim':
+        off = [o['name'] for o in obs if not o['icv']]
+        if any(n.endswith('0') for n in off):
+            head += 'name-ends-in-0:'
         bad = sorted({var_class(cfg, o['name']) for o in obs if not o['icv']})
         if not bad:
             bad = ['ints']
@@ -638,7 +643,7 @@ def judge(rep, cases, count=True):
 
 def run(rep):
     cfgs = ['MC_Horizon_quick.cfg'] if rep.tier == 'quick' else ['MC_Horizon_quick.cfg', 'MC_Horizon_thorough.cfg']
-    rep.rule = ('configurations = all initial states of the bounded Horizon instance (5 blueprints x exogenous form '
+    rep.rule = ('configurations = all initial states of the bounded Horizon instance (5 blueprints, three of them also under variable names ending in 0 / holding a 0 / differing by a trailing 0 (h1, h10) x exogenous form '
                 'and length x initial condition on none / each non-exogenous variable / all / the time axis t and t_minus_1 with and without an equation for t, as float, int or '
                 'undefined name x horizon x MaxTime in block / on solver before parsing / both with different values (solver wins, 0 included) / absent / in block and a larger or smaller value assigned to the solver after EquationSolver(block) or ParseString(block) x reduction on/off; plus histories of two blocks parsed one after the other into ONE solver object - first round with the horizon only in its block (ParseString or constructor, solved or only parsed) or written to the solver (before or late), second round with its own MaxTime line / none / solver written again / the kept solver value against another line), each solved by '
                 'TLC and emitted; every one is replayed at block level with its integer values, a seeded sample again '
